@@ -142,7 +142,7 @@ class Build:
 
     def __init__(self):
         self.th = tree_hash()
-        self.vh = verif_hash()
+        self.vh = verif_hash(("kani",))
         self.key = sha((self.th + self.vh).encode())[:24]
         self.dir = os.path.join(BUILD_ROOT, self.key)
         self.repo = os.path.join(self.dir, "repo")
@@ -358,35 +358,71 @@ def parse_kani(out):
     return r
 
 
-def cache_path(build, ob_id):
-    return os.path.join(CACHE, build.key, ob_id.replace("/", "__") + ".json")
+SHARED_HARNESS_FILES = ("shim.rs", "hmacros.rs", "refspec.rs", "anyboard.rs")
+_FH = {}
 
 
-def cache_get(build, ob_id):
+def _file_hash(path):
+    if path not in _FH:
+        try:
+            with open(path, "rb") as fh:
+                _FH[path] = hashlib.sha256(fh.read()).hexdigest()
+        except FileNotFoundError:
+            _FH[path] = "missing"
+    return _FH[path]
+
+
+def harness_file_of(ob):
+    """the /verif/kani file that holds the harness of a Kani / native obligation"""
+    h = ob.get("harness") or ob.get("test") or ""
+    mod = h.split("::verif_kani::")[0]
+    pre = "chess_base/src/" if ob.get("pkg") == "owlchess_base" else "chess/src/"
+    rel = pre + mod.replace("::", "/") + ".rs"
+    return INJECT_CHILD.get(rel)
+
+
+def ob_key(build, ob):
+    """cache key of one obligation: the whole repo tree, the tool versions, the obligation's
+    registry entry and exactly the /verif files its query is built from.  Editing one harness
+    file therefore does not invalidate results of obligations stated in other files."""
+    parts = [build.th, json.dumps(tv(), sort_keys=True),
+             json.dumps({k: v for k, v in ob.items() if k not in ("props", "stmt", "fns", "assumes", "tier")}, sort_keys=True)]
+    if ob["backend"] == "verus":
+        for f in (os.path.join(VERUS_DIR, ob["spec"]), os.path.join(VERUS_DIR, "prelude.rs"),
+                  os.path.join(VERIF, "lib", "extract.py")):
+            parts.append(_file_hash(f))
+        for f in ob.get("extra_files", []):
+            parts.append(_file_hash(os.path.join(VERUS_DIR, f)))
+    else:
+        hf = harness_file_of(ob)
+        parts.append(_file_hash(os.path.join(KANI_DIR, hf)) if hf else "nofile")
+        for f in SHARED_HARNESS_FILES:
+            parts.append(_file_hash(os.path.join(KANI_DIR, f)))
+    return sha("\n".join(parts).encode())[:32]
+
+
+def cache_path(build, ob):
+    return os.path.join(CACHE, "ob", ob_key(build, ob) + ".json")
+
+
+def cache_get(build, ob):
     if os.environ.get("VERIF_NOCACHE"):
         return None
-    p = cache_path(build, ob_id)
+    p = cache_path(build, ob)
     if os.path.exists(p):
         try:
             with open(p) as fh:
-                return json.load(fh)
+                r = json.load(fh)
+            os.utime(p, None)
+            return r
         except Exception:  # noqa
             return None
     return None
 
 
-def cache_put(build, ob_id, res):
-    p = cache_path(build, ob_id)
+def cache_put(build, ob, res):
+    p = cache_path(build, ob)
     os.makedirs(os.path.dirname(p), exist_ok=True)
-    # keep only caches of the two most recent builds
-    try:
-        ds = sorted((os.path.getmtime(os.path.join(CACHE, d)), d) for d in os.listdir(CACHE)
-                    if os.path.isdir(os.path.join(CACHE, d)))
-        for _, d in ds[:-3]:
-            if d != build.key:
-                shutil.rmtree(os.path.join(CACHE, d), ignore_errors=True)
-    except Exception:  # noqa
-        pass
     tmp = p + ".tmp%d" % os.getpid()
     with open(tmp, "w") as fh:
         json.dump(res, fh)
